@@ -358,6 +358,18 @@ class Ctx(object):
             st['discharged'] += 1
             st['trivial'] += 1
             return
+        if len(goals) > 6:
+            # canonicalise + deduplicate per-entry obligations (identical up to renaming)
+            seen, reps = set(), []
+            pcs = [c for c in ENG.pc] + list(ENG.axioms)
+            for g in goals:
+                k = _canon_key(g, pcs, ())
+                if k not in seen:
+                    seen.add(k)
+                    reps.append(g)
+            st.setdefault('deduped_entries', 0)
+            st['deduped_entries'] += len(goals) - len(reps)
+            goals = reps
         goal = T.or_(*goals)
         if goal.op == 'true':
             # syntactically different constants: definitely violated on this path
@@ -372,11 +384,9 @@ class Ctx(object):
                 return
         key = _canon_key(goal, ENG.pc, ENG.axioms)
         st['nontrivial_keys'].add(key)
-        s = ENG.solver
-        s.set('timeout', self.S.obligation_timeout_ms)
         t0 = time.time()
-        s.push()
         try:
+            s = ENG.fresh_solver(self.S.obligation_timeout_ms)
             s.add(T.to_z3(goal))
             if len(self.samples) < self.S.sample_limit:
                 self._sample(label, s)
@@ -384,16 +394,12 @@ class Ctx(object):
             model = s.model() if r == 'sat' else None
             if r == 'sat' and (tol if tol is not None else self.S.tol) and not ineq:
                 # exact identity refuted: inexact concrete constants?  tolerance form
-                s.pop()
-                s.push()
+                s = ENG.fresh_solver(self.S.obligation_timeout_ms)
                 r, model = self._tolerance_query(s, lt, rt, tol if tol is not None else self.S.tol)
                 if r == 'unsat':
                     st['tolerance'] += 1
             if r == 'unknown' and len(goals) > 1:
-                # split per entry
-                s.pop()
-                s.push()
-                r, model = self._split(s, goals)
+                r, model, s = self._split(goals)
             if r == 'unsat':
                 st['discharged'] += 1
             elif r == 'sat':
@@ -404,24 +410,19 @@ class Ctx(object):
                 st['inconclusive'] += 1
                 self.inconclusive.append('%s: solver returned %s' % (label, r))
         finally:
-            s.pop()
-            s.set('timeout', ENG.branch_timeout_ms)
             st['solver_s'] += time.time() - t0
 
-    def _split(self, s, goals):
+    def _split(self, goals):
         worst = 'unsat'
         for g in goals:
-            s.push()
+            s = ENG.fresh_solver(self.S.obligation_timeout_ms)
             s.add(T.to_z3(g))
             r = str(s.check())
             if r == 'sat':
-                m = s.model()
-                s.pop()
-                return 'sat', m
-            s.pop()
+                return 'sat', s.model(), s
             if r != 'unsat':
                 worst = 'unknown'
-        return worst, None
+        return worst, None, None
 
     def _tolerance_query(self, s, lt, rt, tol):
         eps, box = tol
@@ -444,7 +445,7 @@ class Ctx(object):
         return r, (s.model() if r == 'sat' else None)
 
     def _solve_candidate(self, label, goal, detail):
-        s = ENG.solver
+        s = ENG.fresh_solver(self.S.obligation_timeout_ms)
         r = str(s.check())
         if r == 'unsat':
             self.stats['discharged'] += 1
@@ -471,17 +472,15 @@ class Ctx(object):
                     cons.append(z3.And(z3.Int(vn) >= -16, z3.Int(vn) <= 16))
         if not cons:
             return model
-        s.push()
         try:
-            s.set('timeout', 3000)
-            s.add(*cons)
-            if str(s.check()) == 'sat':
-                return s.model()
+            s2 = z3.Solver()
+            s2.set('timeout', 3000)
+            s2.add(s.assertions())
+            s2.add(*cons)
+            if str(s2.check()) == 'sat':
+                return s2.model()
         except z3.Z3Exception:
             pass
-        finally:
-            s.pop()
-            s.set('timeout', self.S.obligation_timeout_ms)
         return model
 
     def _var_names(self, name, info):
@@ -559,7 +558,7 @@ class Ctx(object):
     def _candidate(self, label, kind, values, detail='', funcs=None):
         if values is None:
             # witness of the path condition
-            s = ENG.solver
+            s = ENG.fresh_solver(self.S.obligation_timeout_ms)
             r = str(s.check())
             if r != 'sat':
                 self.stats['inconclusive'] += 1
@@ -622,18 +621,25 @@ def _fmt(q):
 
 
 def _canon_key(goal, pc, axioms):
-    """Alpha-renamed structural key of an obligation (variables numbered by first occurrence)."""
+    """Alpha-renamed canonical serialisation of an obligation DAG: variables are
+    numbered by first occurrence (goal first, then path condition and axioms),
+    shared nodes are emitted once and referenced by index.  Equal keys => the two
+    obligations are identical up to renaming of variables, hence equisatisfiable."""
     names = {}
+    index = {}
     parts = []
     for t in T.postorder([goal] + list(pc) + list(axioms)):
+        kids = tuple(index[x.id] for x in t.args)
         if t.op == 'var':
             if t.val not in names:
                 names[t.val] = len(names)
-            parts.append(('v', names[t.val], t.sort))
+            item = ('v', names[t.val], t.sort)
         elif t.op == 'const':
-            parts.append(('c', t.val))
+            item = ('c', t.val, t.sort)
         elif t.op == 'app':
-            parts.append(('a', t.val, len(t.args)))
+            item = ('a', t.val, kids)
         else:
-            parts.append((t.op, len(t.args)))
+            item = (t.op, kids)
+        index[t.id] = len(parts)
+        parts.append(item)
     return hash(tuple(parts))
